@@ -281,3 +281,23 @@ def model_reload(c):
             c.ensures("per-channel-optics-kept", c.and_(list(oa.illumination.values) == list(ob.illumination.values),
                                                         *[c.eq(oa.sel(illumination=k).item(), ob.sel(illumination=k).item()) for k in ('red', 'green')]),
                       detail=label)
+
+
+@contract("C15", "bound_method_roundtrip", ["holopy.core.io.serialize:instancemethod_representer", "holopy.core.io.serialize:instancemethod_constructor"],
+          native_only=True, bounded="native runs through the real PyYAML: bound methods of objects written with 0, 1, 2 or 3 arguments")
+def bound_method_roundtrip(c):
+    """a bound method saved as text reloads to the same method of an equal object, whatever the number of arguments its owner is
+    written with"""
+    r, frac, n = c.real("r", sample=(0.2, 2)), c.real("fraction", sample=(0.05, 0.9)), c.real("n", sample=(1.2, 2))
+    owners = {"owner written with its default only": Sphere(), "one argument (constraint)": LimitOverlaps(frac),
+              "one argument (sphere)": Sphere(r=r), "two arguments": Sphere(n=n, r=r), "three arguments": Sphere(n=n, r=r, center=[1.0, 2.0, 3.0]),
+              "a collection": Spheres([Sphere(n=n, r=r, center=[0.0, 0.0, 5.0])], warn=False)}
+    for label in sorted(owners):                     # every kind of owner on every run
+        owner = owners[label]
+        method = owner.check if isinstance(owner, LimitOverlaps) else owner.translated
+        o = c.outcome(lambda: yaml.load(yaml.dump(method), Loader=yaml.FullLoader))
+        c.ensures("reloads - " + label, o.ok, detail="%s: %r" % (label, o.exc))
+        if o.ok:
+            back = o.value
+            c.ensures("same method of an equal object - " + label, back.__func__.__name__ == method.__func__.__name__
+                      and type(back.__self__) is type(owner) and bool(back.__self__ == owner), detail=label)
